@@ -20,7 +20,7 @@ GENS = ["gen_c10"]
 TRUSTED_BASE = [
     "Coq 8.16.1 kernel (coqc); vm_compute only in the refutation witnesses, examples and the check of the generated constants; no native_compute",
     "extraction (ExtrOcamlBasic only; Z/positive/Q stay Coq datatypes) + ocaml/driver_body.ml + OCaml 4.13.1",
-    "hand-written models coq/theories/Model/CamGen.v and VamGen.v, tied to the code by differential execution (this harness)",
+    "hand-written models coq/theories/Model/CamGen.v, CamPath.v and VamGen.v, tied to the code by differential execution (this harness)",
     "translator tools/gen_c10.py (constants and literal thresholds of the working tree -> Gen/C10Consts.v)",
     "Python harness harness/c10.py, harness/stack.py (virtual clock, fake Timer); dateutil and asn1tools are used as they are",
 ]
@@ -28,12 +28,14 @@ ASSUMPTIONS = [
     "the models are tied to CAMTransmissionManagement / VAMTransmissionManagement by execution on the same operation sequences, not by proof",
     "time is virtual: TimeService.time returns the virtual clock plus a sub-millisecond phase, threading.Timer is replaced by a timer the harness fires (optionally late), random.uniform (initial delay) by a scripted value",
     "metric distances given to the model are computed by the harness (haversine, mean Earth radius 6 371 000 m) between the current report and the report of the previous CAM; the model refuses the input (desync) if that is not the report its own state refers to; decisions within 1 mm / 1e-9 of a threshold end the trajectory (no verdict)",
+    "the path-point deltas round((h - current) * 1e7) given to the path-history model are computed by the harness with the code's float expression; the model refuses them (desync) if the stored points are not its own; the range -131071..131072 and the bounds 23 / 40 are constants of the message format written into Model/CamPath.v",
     "reports always carry `time`; the VAM scaling int(x*100) etc. enters the VAM model as the integer the harness computes with the same expression (C11 checks those mappings against an exact rational model)",
     "heading/speed/distance thresholds are compared in exact rationals (every double is one); the float subtraction of the code can differ only inside the excluded 1e-9 band",
 ]
 EXPLANATION = ("theorems by induction over all operation sequences (start/stop/report/timer check; reports for the VAM "
                "service): minimum and maximum gap, responsiveness to dynamics, low-frequency container rule, silence "
-               "outside activity, generationDeltaTime, T_GenCam invariant; VAM first/min/max/LF with the min-gap clause "
+               "outside activity, generationDeltaTime, T_GenCam invariant, every path point of the low-frequency container expressible in its "
+               "type for every history and displacement; VAM first/min/max/LF with the min-gap clause "
                "refuted for dynamics triggers (known finding); correspondence with the real transmission managers on "
                "generated trajectories in virtual time")
 
@@ -345,7 +347,11 @@ def decode_cam(data: bytes):
     p = d["cam"]["camParameters"]
     rp = p["basicContainer"]["referencePosition"]
     hf = p["highFrequencyContainer"][1]
-    return {"gdt": d["cam"]["generationDeltaTime"], "lf": "lowFrequencyContainer" in p,
+    path = None
+    if "lowFrequencyContainer" in p:
+        path = [[q["pathPosition"]["deltaLatitude"], q["pathPosition"]["deltaLongitude"]]
+                for q in p["lowFrequencyContainer"][1]["pathHistory"]]
+    return {"gdt": d["cam"]["generationDeltaTime"], "lf": "lowFrequencyContainer" in p, "path": path,
             "lat": rp["latitude"], "lon": rp["longitude"], "heading": hf["heading"]["headingValue"],
             "speed": hf["speed"]["speedValue"]}
 
@@ -416,6 +422,9 @@ def analyse_cam(ctx, script, obs, tag):
     truncated = None
     ref_pos_rid = None      # report whose position the implementation stored at its last CAM
     ncams = 0
+    hist = []               # reports (newest first, at most 40) of the CAMs with a position sent in this activation
+    pstream = []            # op stream for the path-history model (Model/CamPath.v)
+    impl_paths = []         # [opindex, [[deltaLatitude, deltaLongitude], ...]] per CAM with the low-frequency container
     for i, o in enumerate(ops):
         kind = o["op"]
         cur_t[0] = o["t"]
@@ -433,6 +442,8 @@ def analyse_cam(ctx, script, obs, tag):
                 prev_check_t = None
                 max_spacing = 0
                 avail_since = o["t"] if cur is not None else None
+                hist = []
+                pstream += [0]
             continue
         if kind == "stop":
             stream += [1]
@@ -467,9 +478,18 @@ def analyse_cam(ctx, script, obs, tag):
         if haspos and ref_pos_rid is not None:
             r0 = reports[ref_pos_rid]
             dist = haversine_m(r0["lat"], r0["lon"], rep["lat"], rep["lon"])
-        if o.get("fail"):
-            # No CAM could be handed over at this check (encoder / lower layer refused, or the message could not
-            # be built from a malformed report): nothing the property demands of a check can be demanded here.
+        own_fault = None
+        if o.get("fail") and not malformed and all(w.startswith("encoder:") for w in o["fail"]):
+            # The encoder refused a CAM although the latest report is well-formed and the lower layer was never
+            # reached: the environment did nothing wrong - the service itself filled a field of the message with a
+            # value outside its type (seed C10-11: a path point of the low-frequency container after a long report
+            # outage). The service is active with position data, so the property's demands stand: this is an
+            # ordinary check at which no CAM was generated (and an ordinary Check for the model).
+            own_fault = o["fail"]
+            ctx.count(1, "cam_unencodable_from_wellformed_report")
+        if o.get("fail") and not own_fault:
+            # No CAM could be handed over at this check (lower layer refused, or the message could not be built /
+            # encoded from a malformed report): nothing the property demands of a check can be demanded here.
             # For the model it is a CheckFail; the property oracle goes on with unchanged expectations, i.e. the
             # low-frequency interval still runs from the last CAM that was really sent with the container, and
             # the spacing of the checks (max_spacing) now spans the failed one.
@@ -523,15 +543,16 @@ def analyse_cam(ctx, script, obs, tag):
         if len(sent) > 1:
             ctx.property_failure("cam_duplicate", mk(), f"{len(sent)} CAMs at one check at {t}", 1, len(sent))
         if not sent:
+            why = f" [the service built a CAM from the well-formed report {cur} that the encoder rejects: {own_fault}]" if own_fault else ""
             if must:
                 ctx.property_failure("cam_not_responsive", mk(),
-                                     f"no CAM at the check at {t}: {t - last_cam['t']} ms after the last CAM with {must}",
+                                     f"no CAM at the check at {t}: {t - last_cam['t']} ms after the last CAM with {must}" + why,
                                      "CAM", None)
             if last_cam is not None and t - last_cam["t"] > 1000 + max_spacing:
-                ctx.property_failure("cam_max_gap", mk(), f"no CAM for {t - last_cam['t']} ms at {t} (checks at most {max_spacing} ms apart)",
+                ctx.property_failure("cam_max_gap", mk(), f"no CAM for {t - last_cam['t']} ms at {t} (checks at most {max_spacing} ms apart)" + why,
                                      1000 + max_spacing, t - last_cam["t"])
             if last_cam is None:
-                ctx.property_failure("cam_first_not_immediate", mk(), f"no CAM at the first check with position data after start ({t})",
+                ctx.property_failure("cam_first_not_immediate", mk(), f"no CAM at the first check with position data after start ({t})" + why,
                                      "CAM", None)
             continue
         ncams += 1
@@ -567,10 +588,21 @@ def analyse_cam(ctx, script, obs, tag):
                                  cur, rid)
         if c["lf"]:
             last_lf_t = t
+            # path history of the container: the stored points as the code's float expression sees them from the
+            # current report (input of the model, which decides what is emitted), and what the CAM carries
+            pstream += [2, i, int(haspos), len(hist[:23]) if haspos else 0]
+            for j in (hist[:23] if haspos else []):         # no later point can be emitted (at most 23 are)
+                pstream += [j, round((reports[j]["lat"] - rep["lat"]) * 10_000_000),
+                            round((reports[j]["lon"] - rep["lon"]) * 10_000_000)]
+            impl_paths.append([i, c["path"]])
+            if haspos and hist:
+                ctx.count(1, "cam_lf_path_cut_short_by_range" if len(c["path"]) < min(23, len(hist)) else "cam_lf_path_full")
         first_pending = False
         last_cam = {"t": t, "rid": cur}
         if haspos:
             ref_pos_rid = cur
+            hist = ([cur] + hist)[:40]
+            pstream += [1, cur]
         prev_check_t = t
         max_spacing = 0
         impl_cams.append([i, t, int(c["lf"]), c["gdt"], rid, o["t_gen"], o["n_cnt"]])
@@ -580,7 +612,7 @@ def analyse_cam(ctx, script, obs, tag):
         ctx.property_failure("cam_timer_after_stop", mk(), "a T_CheckCamGen timer is still pending after stop()")
     nops = truncated if truncated is not None else len(ops)
     ctx.count(nops, "cam_ops_" + tag)
-    return stream, impl_cams, ncams, truncated
+    return stream, impl_cams, ncams, truncated, pstream, impl_paths
 
 
 def parse_cam_model(res):
@@ -598,13 +630,28 @@ def parse_cam_model(res):
     return out
 
 
+def parse_path_model(res):
+    out, i = [], 0
+    while i < len(res):
+        if res[i] == 1:
+            m = res[i + 2]
+            out.append([res[i + 1], [res[i + 3 + 2 * k:i + 5 + 2 * k] for k in range(m)]])
+            i += 3 + 2 * m
+        else:
+            out.append([{2: "desync", 3: "bad-input"}.get(res[i], "?")] + res[i + 1:i + 3])
+            break
+    return out
+
+
 def check_cam_scripts(ctx, scripts, tag):
-    reqs, keep = [], []
+    reqs, keep, preqs, pkeep = [], [], [], []
     for script in scripts:
         obs = run_cam_script(script)
-        stream, impl_cams, ncams, trunc = analyse_cam(ctx, script, obs, tag)
+        stream, impl_cams, ncams, trunc, pstream, impl_paths = analyse_cam(ctx, script, obs, tag)
         reqs.append((1, stream))
+        preqs.append((3, pstream))
         keep.append((script, impl_cams, trunc))
+        pkeep.append((script, impl_paths))
         if ncams:
             ctx.sample({"cam_script": {k: script[k] for k in ("t0", "end", "phase") if k in script},
                         "kind": script.get("gen"), "events": len(script["events"]), "cams": ncams,
@@ -623,6 +670,13 @@ def check_cam_scripts(ctx, scripts, tag):
             ctx.mismatch("CAMTransmissionManagement = CamGen.run (CAMs as opindex,time,lf,gdt,report,t_gen,n_cnt)",
                          {"script": script}, mc[max(0, k - 1):k + 2], cmp_impl[max(0, k - 1):k + 2],
                          f"first difference at CAM #{k}")
+    for (script, impl_paths), res in zip(pkeep, ctx.model.batch(preqs)):
+        mp = parse_path_model(res)
+        if mp != impl_paths:
+            k = next((j for j in range(min(len(mp), len(impl_paths))) if mp[j] != impl_paths[j]), min(len(mp), len(impl_paths)))
+            ctx.mismatch("path history of the low-frequency container = CamPath.path_points (per CAM: opindex, [deltaLatitude, deltaLongitude]*)",
+                         {"script": script}, mp[k:k + 1], impl_paths[k:k + 1],
+                         f"first difference at low-frequency container #{k}")
 
 
 # --------------------------------------------------------------------------- CAM: trajectory generators
@@ -631,9 +685,61 @@ def dy(k, den=64):
     return k / den
 
 
-def gen_cam_script(rng, kind: str, duration_ms: int, t0=None):
+PATH_DELTA_LIMIT = 131072      # largest DeltaLatitude / DeltaLongitude of a path point [0.1 microdegree] (CDD), ~1.46 km north-south
+
+
+OUTAGE_COMBOS = [(shape, sa, sb, None) for shape in ("lat", "lon", "both", "neither") for sa in (-1, 1) for sb in (-1, 1)]
+# the displacement on one axis exactly at the limit: the point stored before the outage is the last one that can still be
+# expressed ("in": offsets -131071 / +131072) or the first one that cannot ("out": -131072 / +131073); sign 0 = drawn
+OUTAGE_BOUNDARY = [(shape, s if shape == "lat" else 0, s if shape == "lon" else 0, ex)
+                   for shape in ("lat", "lon") for s in (-1, 1) for ex in ("in", "out")]
+
+
+def plan_outage(rng, lat_deg: float, avail_ms: int, combo=None):
+    """A report outage during which the vehicle keeps moving (tunnel, urban canyon, receiver restart): the property
+    quantifies over gaps in reports of any length, so the displacement between the last report before and the first
+    report after the gap ranges from metres to kilometres. Returns (duration ms, metres north, metres east, exact).
+    The displacement is drawn per axis in units of 0.1 microdegree - the resolution in which a CAM expresses
+    positions relative to the current one - from: zero / small / anywhere below / within +-3 units of / just
+    beyond / far beyond the largest relative offset a CAM can carry. `combo` = (which axis goes beyond it: "lat"
+    north-south only, "lon" east-west only, "both", "neither"; sign north; sign east; None or "in" / "out": that axis
+    exactly at the last expressible / first inexpressible offset) - drawn when not given."""
+    m_lat = math.radians(1e-7) * R_EARTH
+    m_lon = m_lat * math.cos(math.radians(lat_deg))
+    lim = PATH_DELTA_LIMIT
+
+    def far():
+        return rng.choice([lim + rng.randrange(-3, 4), lim + rng.randrange(-3, 4), lim + rng.randrange(4, 3000),
+                           rng.randrange(lim + 3000, 5 * lim)])
+
+    def nearby():
+        return rng.choice([0, 0, rng.randrange(0, 3000), rng.randrange(0, lim - 3)])
+    shape, sa, sb, exact = combo if combo is not None else rng.choice(OUTAGE_COMBOS)
+    sa, sb = sa or rng.choice([-1, 1]), sb or rng.choice([-1, 1])
+
+    def edge(sign):
+        # a stored point lies -sign * units from the new position; expressible offsets are -131071 .. 131072
+        return lim - 1 + (1 if sign < 0 else 0) + (1 if exact == "out" else 0)
+    a = ((edge(sa) if exact else far()) if shape in ("lat", "both") else nearby()) * sa
+    b = ((edge(sb) if exact else far()) if shape in ("lon", "both") else nearby()) * sb
+    north, east = a * m_lat, b * m_lon
+    dist = math.hypot(north, east)
+    v = rng.choice([12, 25, 33, 50, 70, 90])              # m/s while out of sight
+    if dist / v * 1000 > avail_ms:
+        v = 90
+    if dist / v * 1000 > avail_ms and not exact:            # not reachable in the time allowed: as far as 90 m/s gets
+        k = avail_ms / (dist / v * 1000)
+        north, east, dist = north * k, east * k, dist * k
+    dur = max(int(dist / v * 1000), rng.choice([1500, 4000, 12000]))
+    return (dur if exact else min(dur, max(avail_ms, 1500))), north, east, bool(exact)
+
+
+def gen_cam_script(rng, kind: str, duration_ms: int, t0=None, outages=None, max_outage_ms=60_000):
     """A trajectory as a timed sequence of reports plus start/stop events. Values are dyadic (k/64) unless the
-    kind says otherwise, so that the code's float arithmetic on them is exact."""
+    kind says otherwise, so that the code's float arithmetic on them is exact.
+    kind "outage": long gaps in the reports while the vehicle travels on (see plan_outage); `outages` = the
+    combinations to go through (the script then ends a few seconds after the last one, at `duration_ms` at the
+    latest), None = drawn at random until `duration_ms`."""
     if t0 is None:
         t0 = 1_600_000_000_000 + rng.randrange(0, 300_000_000_000)
     if kind == "gdtwrap":    # start shortly before the 65.536 s wrap of the ITS timestamp
@@ -679,9 +785,34 @@ def gen_cam_script(rng, kind: str, duration_ms: int, t0=None):
     acc = 0.0
     turn = 0.0
     near_seq = [3.9, 3.99, 3.995, 4.005, 4.01, 4.1, 0.5, 7.9, 2.0, 2.005]
+    out_left, out_dx, out_dy = 0, 0.0, 0.0                 # kind "outage": steps left without a report, metres per step
+    hold_after, hold_left = 0, 0                           # ... and steps for which the vehicle then stands where it re-appeared
+    next_outage = t + rng.choice([2500, 5000, 9000]) if kind == "outage" else 0
+    todo = list(outages) if outages is not None else None
     while t < t0 + duration_ms:
         if kind == "gaps" and t >= gap_until and rng.random() < 0.02:
             gap_until = t + rng.choice([300, 1100, 2500, 7000])
+        if kind == "outage" and out_left == 0 and t >= next_outage and todo is not None and not todo:
+            duration_ms = t - t0              # every planned outage is done and was followed by some seconds of reports
+            break
+        if kind == "outage" and out_left == 0 and t >= next_outage and t0 + duration_ms - t > 8000:
+            # long report outage on a straight leg; the report that ends it lies exactly the planned displacement
+            # from the last report before it
+            dur, north, east, exact = plan_outage(rng, lat0, min(max_outage_ms, t0 + duration_ms - t - 6000),
+                                                  todo.pop(0) if todo else None)
+            out_left = max(2, dur // period)
+            # a displacement planned to the unit is met by the first report after the outage; the vehicle halts there
+            # for 700 ms, turning on the spot (5 degrees per report: a CAM is due at every check), so that at any
+            # report rate a CAM WITH the low-frequency container (at most 500 ms after the last one) is generated from
+            # exactly that position
+            hold_after = max(2, -(-700 // period)) if exact else 0
+            out_dx, out_dy = east / out_left, north / out_left
+            if north or east:
+                track = math.floor(math.degrees(math.atan2(east, north)) % 360 * 64) / 64
+                speed = min(90.0, math.floor(math.hypot(north, east) / (out_left * period / 1000) * 64) / 64)
+            acc, turn = 0.0, 0.0
+            mode_until = t + out_left * period + rng.choice([0, 1000, 4000])
+            next_outage = t + out_left * period + rng.choice([3000, 5000, 9000, 15000])
         if t >= mode_until:
             mode_until = t + rng.choice([500, 2000, 5000, 15000])
             if kind in ("constant",):
@@ -706,6 +837,15 @@ def gen_cam_script(rng, kind: str, duration_ms: int, t0=None):
             y += step * math.cos(ang)
             speed = max(0.0, speed + rng.choice([0, 0, 0, dy(31), dy(32), dy(33), -dy(32), -dy(33)]))
             track = (track + rng.choice([0, 0, 0, dy(255), 4.0, dy(257), -dy(257)])) % 360
+        elif out_left > 0:
+            out_left -= 1
+            x += out_dx
+            y += out_dy
+            if out_left == 0 and hold_after:
+                hold_left, speed, acc = hold_after, 0.0, 2.0
+        elif hold_left > 0:
+            hold_left -= 1
+            track = (track + 5.0) % 360
         else:
             speed = min(max(0.0, speed + math.floor(acc * dt * 64) / 64), 90.0)
             track = (track + math.floor(turn * dt * 64) / 64) % 360
@@ -713,7 +853,7 @@ def gen_cam_script(rng, kind: str, duration_ms: int, t0=None):
                 track = 360.0
             x += speed * dt * math.sin(math.radians(track))
             y += speed * dt * math.cos(math.radians(track))
-        if t >= gap_until:
+        if t >= gap_until and out_left == 0:
             lat = lat0 + math.degrees(y / R_EARTH)
             lon = lon0 + math.degrees(x / (R_EARTH * math.cos(math.radians(lat0))))
             lon = (lon + 180.0) % 360.0 - 180.0
@@ -930,6 +1070,12 @@ def analyse_vam(ctx, script, obs, tag):
         clop = bool(rep.get("clop", False)) and has_stub
         latc, lonc, spc, trc = vam_codes(rep)
         failed = bool(o.get("fail"))
+        if failed and not rep.get("bad") and all(w.startswith("encoder:") for w in o["fail"]):
+            # the encoder refused a VAM built from a well-formed report and the lower layer was never reached: not a
+            # failure of the environment but a message the service filled wrongly - an ordinary report for the oracle
+            # (the exception that left the callback is reported, every demand stands) and for the model
+            failed = False
+            ctx.count(1, "vam_unencodable_from_wellformed_report")
         haspos = "lat" in rep and "lon" in rep
         stream += [its_of_utc_ms(rep["ts"]), rep["at"], int(gate), int(clop), int(haspos)] \
             + (qpair(rep["lat"]) + qpair(rep["lon"]) if haspos else [0, 1, 0, 1]) + [latc, lonc] \
@@ -1153,7 +1299,9 @@ def corpus_scripts():
 def run(ctx):
     ctx.rule = ("CAM: scripted start/stop/report events plus the firing of the service's own (fake) T_CheckCamGen timer in "
                 "virtual time, on trajectories constant / accelerating / turning across 0-360 / stop-and-go / missing "
-                "optional fields / report gaps / restarts / near-threshold / decimal values / gdt wrap, 1-50 Hz; VAM: "
+                "optional fields / report gaps / report outages of up to minutes during which the vehicle travels up to kilometres "
+                "(each axis / both / neither beyond the largest relative offset a CAM can express, both signs) / restarts / "
+                "near-threshold / decimal values / gdt wrap, 1-50 Hz; VAM: "
                 "timed report sequences with the same kinds plus passive periods and cluster-operation containers. One "
                 "evaluation = one operation (event, timer check or report) executed on the implementation and the model; "
                 "non-trivial = an operation at which a CAM/VAM was sent; distinct by (stream, index, time)")
@@ -1169,6 +1317,18 @@ def run(ctx):
         for _ in range(2 if quick else 8):
             scripts.append(gen_cam_script(rng, kind, rng.choice([8_000, 20_000, 70_000]) if quick else rng.choice([30_000, 140_000, 400_000])))
     check_cam_scripts(ctx, scripts, "short")
+    # long report outages while the vehicle travels on: every combination of (axis on which the displacement exceeds what a
+    # CAM can express relative to the current position: north-south / east-west / both / neither) x (sign north) x (sign east)
+    # in every run, magnitudes and speeds drawn (plan_outage), plus the eight displacements that put the point stored
+    # before the outage exactly on the last expressible / first inexpressible offset of one axis
+    scripts = []
+    for rnd in range(1 if quick else 6):
+        deck = list(OUTAGE_COMBOS) + list(OUTAGE_BOUNDARY)
+        rng.shuffle(deck)
+        for j in range(0, len(deck), 4):
+            scripts.append(gen_cam_script(rng, "outage", 600_000 if quick else 3_000_000, outages=deck[j:j + 4],
+                                          max_outage_ms=45_000 if quick or rnd < 3 else 400_000))
+    check_cam_scripts(ctx, scripts, "outage")
     # CAMs that cannot be handed over: malformed reports, lower layer / LDM adapter failing at random and at chosen checks
     scripts = []
     for kind in CAM_FAIL_KINDS:
@@ -1186,7 +1346,8 @@ def run(ctx):
     long_ms = 600_000 if quick else 3 * 3600_000
     check_cam_scripts(ctx, [gen_cam_script(rng, "mixed", long_ms)], "long")
     if not quick:
-        check_cam_scripts(ctx, [gen_cam_script(rng, "stopgo", 3600_000), gen_cam_script(rng, "gaps", 3600_000)], "long")
+        check_cam_scripts(ctx, [gen_cam_script(rng, "stopgo", 3600_000), gen_cam_script(rng, "gaps", 3600_000),
+                                gen_cam_script(rng, "outage", 1800_000, max_outage_ms=400_000)], "long")
     # VAM
     vs = []
     for kind in VAM_KINDS:
